@@ -55,4 +55,7 @@ def pxToF64 (fx : Nat → Spec.Fmt) (g : UInt32 → Int32 → Rs.M Rs.F64) (n : 
   Sweep.all1 (2 ^ n) fun a => match g (UInt32.ofNat n) (emb n a) with
     | .ok r => r.bits.toNat == Spec.toF64 (fx n) a
     | .error _ => false
+/-- generic-to-generic: every `m`-bit source pattern of format `fs m` converted to width `n` of format `ft n` (`g n m src`) -/
+def pxGG (fs ft : Nat → Spec.Fmt) (g : UInt32 → UInt32 → Int32 → Rs.M Int32) (m n : Nat) : Bool :=
+  Sweep.all1 (2 ^ m) fun a => Sweep.isOk (g (UInt32.ofNat n) (UInt32.ofNat m) (emb m a)) (emb n (Spec.conv (fs m) (ft n) a))
 end SweepG
